@@ -18,7 +18,7 @@ CONFIG = {
     "C15": dict(engine="sim_objs", level="exploration", design="DESIGN.md section 7",
                 quick=dict(runs=120000, budget_s=100), thorough=dict(runs=4000000, budget_s=1500)),
     "C04": dict(engine="sim_hist", level="exploration", design="DESIGN.md section 4",
-                quick=dict(runs=40000, budget_s=130), thorough=dict(runs=1500000, budget_s=1700)),
+                quick=dict(runs=70000, budget_s=130), thorough=dict(runs=3000000, budget_s=1700)),
     "C11": dict(engine="sim_io", level="fault_enumeration", design="DESIGN.md section 5",
                 quick=dict(runs=60000, budget_s=150), thorough=dict(runs=3000000, budget_s=1800)),
     "C13": dict(engine="sim_restart", level="exploration", design="DESIGN.md section 6",
@@ -119,6 +119,7 @@ def main():
     ap.add_argument("--budget-s", type=float, default=0)
     ap.add_argument("--no-evidence", action="store_true")
     ap.add_argument("--max-classes", type=int, default=8)
+    ap.add_argument("--list-classes", action="store_true", help="debugging: list violation classes with counts and stop")
     args = ap.parse_args()
     prop = args.prop
     cfg = CONFIG[prop]
@@ -269,6 +270,10 @@ def main():
     os.makedirs("replays", exist_ok=True)
     os.makedirs("replays/tmp", exist_ok=True)
     classes = sorted(by_class.items(), key=lambda kv: (-len(kv[1]), kv[0]))
+    if args.list_classes:
+        for cls, lst in classes:
+            log("CLASS %6d  %s  (e.g. run %d)" % (len(lst), cls, min(lst)[1]))
+        sys.exit(0)
     for cls, lst in classes[: args.max_classes]:
         lst.sort()
         nsteps, idx = lst[0]
@@ -381,6 +386,9 @@ def main():
     log("%s %s: %d runs (%d enumerated) in %.1fs, %d distinct non-trivial, %d violation classes (%d known), determinism %d/%d ok, deaths %d" % (
         prop, tier, evals, min(E, evals), wall_runs, len(nontriv_hashes), len(by_class), len(known_hits), det_checked - len(det_mismatch), det_checked, len(crashed)))
 
+    for v in new_violations:
+        log("VIOLATION property=%s replay=%s" % (prop, os.path.join(ROOT, v["replay"])))
+        log("  class=%s runs=%d steps=%s note=%s" % (v["cls"], v["count"], v["steps"], v["note"][:300]))
     if det_mismatch:
         for idx, h1, h2 in det_mismatch[:5]:
             log("HARNESS: run %d is not deterministic (%s vs %s)" % (idx, h1, h2))
@@ -391,9 +399,6 @@ def main():
     if evals == 0:
         log("HARNESS: no runs executed"); sys.exit(2)
     if new_violations:
-        for v in new_violations:
-            log("VIOLATION property=%s replay=%s" % (prop, os.path.join(ROOT, v["replay"])))
-            log("  class=%s runs=%d steps=%s note=%s" % (v["cls"], v["count"], v["steps"], v["note"][:300]))
         sys.exit(1)
     sys.exit(0)
 
